@@ -97,6 +97,9 @@ pub fn check_spans(prop: &str, case: &AstCase, ctx: &mut Ctx) -> Verdict {
             if o.cutoff {
                 regions.push("force_progress_cutoff");
             }
+            if m.node.backref_to_group_in_fixed_loop() {
+                regions.push("backref_to_group_in_fixed_length_loop");
+            }
             if let Some(id) = ctx.known.attribute(prop, &regions, symptom) {
                 known_hit = Some(id);
                 continue;
@@ -122,6 +125,9 @@ pub fn check_spans(prop: &str, case: &AstCase, ctx: &mut Ctx) -> Verdict {
                         let mut regions = vec![];
                         if o.cutoff {
                             regions.push("force_progress_cutoff");
+                        }
+                        if m.node.backref_to_group_in_fixed_loop() {
+                            regions.push("backref_to_group_in_fixed_length_loop");
                         }
                         if let Some(id) = ctx.known.attribute(prop, &regions, "strict-span-mismatch") {
                             known_hit = Some(id);
